@@ -61,12 +61,17 @@ def new_res(text, rng):
     return '\n'.join(lines) + '\n'
 
 
-def run_refine(tmp, text, newtext, mode, cycles):
-    for f in os.listdir(tmp):
-        p = os.path.join(tmp, f)
-        if f not in ('bin',):
-            shutil.rmtree(p) if os.path.isdir(p) else os.remove(p)
-    open(os.path.join(tmp, 'm.res'), 'w').write(text)
+def run_refine(tmp, text, newtext, mode, cycles, keep=False):
+    if not keep:
+        for f in os.listdir(tmp):
+            p = os.path.join(tmp, f)
+            if f not in ('bin',):
+                shutil.rmtree(p) if os.path.isdir(p) else os.remove(p)
+        open(os.path.join(tmp, 'm.res'), 'w').write(text)
+    else:
+        for f in ('m.seen_ins', 'm.ins'):
+            if os.path.exists(os.path.join(tmp, f)):
+                os.remove(os.path.join(tmp, f))
     open(os.path.join(tmp, 'm.hkl'), 'w').write('   0   0   0    0.00    0.00\n')
     open(os.path.join(tmp, 'm.new'), 'w').write(newtext)
     from shelxfile.shelx.shelx import Shelxfile
@@ -167,6 +172,19 @@ def run(ctx):
                 coq_cases.append((text, newtext, mode, r))
                 if k < 1 and mode in ('ok', 'missing'):
                     common.sample(ctx, {'mode': mode, 'raised': r['raised'], 'res_restored': r['res'] == text, 'ins_head': (ins or '')[:200]})
+            # histories: a successful run followed by a failing one in the same directory (the backup must be the one of the last run)
+            for mode in sorted(FAILS):
+                r1 = run_refine(tmp, text, newtext, 'ok', 4)
+                after_first = r1['res']
+                newer = newtext.replace('REM refined by the stand-in', 'REM refined twice')
+                r2 = run_refine(tmp, after_first, newer, mode, 2, keep=True)
+                ev += 1
+                if r1['raised'] or after_first != newtext:
+                    continue
+                if r2['res'] != after_first:
+                    common.add_violation(ctx, 'after a successful and then a failed run (%s) the .res file is not the result of the successful run' % mode,
+                                         {'text': text, 'mode': 'ok then ' + mode}, 'the .res written by the successful run', 'missing' if r2['res'] is None else r2['res'][:150])
+                    break
     finally:
         shutil.rmtree(tmp, ignore_errors=True)
     # correspondence: the protocol model on the same bytes and the same scripted behaviour.  Files are abstracted to short tags:
